@@ -14,6 +14,13 @@
      CtxPoll     (caller: looks at Done() of every context Stop has returned so far)
      Tick c      (environment: the clock reads c and the goroutine is parked in its select;
                   its timer, if any, has not fired)
+     RemoveRet id (caller: a Remove(id) call has RETURNED.  While running, Remove hands the id over
+                  an unbuffered channel, so it returns only after the goroutine has taken it in its
+                  select and - being single-threaded - removes the entry before anything else; while
+                  idle it removes the entry itself.  Modelled for ids that Schedule has handed out:
+                  enabled iff no entry has that id.)
+     StopRet     (caller: a Stop() call has RETURNED: the goroutine has taken the stop request -
+                  enabled iff not running)
 
    A schedule is abstract: [next : sched -> Z -> option Z] ([None] = the zero time.Time that
    an unsatisfiable schedule returns).  Time is Z (nanoseconds).
@@ -79,7 +86,9 @@ Inductive event :=
 | StartNoop
 | JobRet
 | CtxPoll
-| Tick (c : Z).
+| Tick (c : Z)
+| RemoveRet (id : Z)
+| StopRet.
 
 (* what the event makes observable *)
 Inductive output :=
@@ -213,6 +222,11 @@ Definition step (s : state) (ev : event) : option (state * output) :=
       Some (mkS (entries s) (now s) (running s) (nextID s) (timer s) (outstanding s) (ctxs s)
                 (starts s) c,
             ONone)
+  | RemoveRet id =>
+      if (id <=? nextID s) && negb (existsb (fun e => eid e =? id) (entries s))
+      then Some (s, ONone) else None
+  | StopRet =>
+      if running s then None else Some (s, ONone)
   end.
 
 (* What the environment may do (not a property of cron.go): clocks do not run backwards, a
@@ -277,6 +291,8 @@ Arguments StartNoop {sched}.
 Arguments JobRet {sched}.
 Arguments CtxPoll {sched}.
 Arguments Tick {sched}.
+Arguments RemoveRet {sched}.
+Arguments StopRet {sched}.
 Arguments mkS {sched}.
 Arguments entries {sched}.
 Arguments now {sched}.
